@@ -9,7 +9,7 @@ theorem growLoop_spec (need : Nat) : ∀ (fuel size : Nat), need < size + BUFSIZ
   | f + 1, size, h => by
     unfold growLoop
     split
-    · exact growLoop_spec need f (size + BUFSIZE_STEP) (by simp only [BUFSIZE_STEP] at h ⊢; omega)
+    · exact growLoop_spec need f (size + BUFSIZE_STEP) (by simp only [BUFSIZE_STEP, Generated.LYXML_VALUE_BUFSIZE_STEP] at h ⊢; omega)
     · omega
 
 /-- between loop iterations: without a buffer nothing is in it -/
@@ -30,7 +30,7 @@ theorem useBuf_ok {s : St} (_h : Inv s) (k : Nat) : ∃ s', s.useBuf k = some s'
     · rw [if_neg hb]; exact ⟨rfl, rfl, rfl⟩
   obtain ⟨hb1, ho1, hp1⟩ := h1
   have hg := growLoop_spec (s1.out.length + s1.pending.length + k) (s1.out.length + s1.pending.length + k + 1) s1.size
-    (by simp only [BUFSIZE_STEP]; omega)
+    (by simp only [BUFSIZE_STEP, Generated.LYXML_VALUE_BUFSIZE_STEP]; omega)
   generalize growLoop (s1.out.length + s1.pending.length + k) (s1.out.length + s1.pending.length + k + 1) s1.size = sz at hg
   have htake : s1.out.take sz = s1.out := List.take_of_length_le (by omega)
   simp only [htake]
